@@ -25,6 +25,8 @@ pub enum Ev {
         seq: u64,
         client: usize,
         msg: ServerMessage,
+        /// simulated time of receipt (µs since start)
+        at_us: u64,
     },
     RecvGarbage {
         seq: u64,
@@ -233,10 +235,12 @@ impl Client {
                                 });
                             }
                             let tid = msg.transaction_id();
+                            let at_us = ctx::now_us();
                             rh.push(|seq| Ev::Recv {
                                 seq,
                                 client: idx,
                                 msg: msg.clone(),
+                                at_us,
                             });
                             if let Some(tid) = tid {
                                 rs.answers
